@@ -84,10 +84,10 @@ def applyEv (env : Env) (s : Sys) (ev : List String) : Option Sys :=
     | none => none
   | ["rd", k] =>
     match k.toNat? with
-    | some k => match pcOf s k with
+    | some k => match s.hs[k]? with
       -- the reader goroutine of `readRequest` exists: the handler passed `conns.Add` and the
-      -- `Closing()` check (the read itself may be logged after the handler already gave up)
-      | some pc => if pc = .accepted ∨ pc = .spawned ∨ pc = .added then none else some s
+      -- `Closing()` check with "not closing" (the read itself may be logged after the handler gave up)
+      | some h => if h.entered then some s else none
       | none => none
     | none => none
   | ["snd", k, "p"] =>
